@@ -77,11 +77,13 @@ class PacketSink(Device):
                 time_elapsed = self.env.now - (
                     self.packet_times[rec_index][-10] + self.waits[rec_index][-10]
                 )
-                print(
-                    "Average throughput (last 10 packets): {:.2f} bytes/second.".format(
-                        float(bytes_received) / time_elapsed
+                # (ten packets within one instant: no rate to report)
+                if time_elapsed > 0:
+                    print(
+                        "Average throughput (last 10 packets): {:.2f} bytes/second.".format(
+                            float(bytes_received) / time_elapsed
+                        )
                     )
-                )
 
         self.packets_received[rec_index] += 1
         self.bytes_received[rec_index] += packet.size
